@@ -123,6 +123,58 @@ Definition promised : list rule := [
    holds for every service the future may point to) *)
 Definition guarded : list (string * (nat * trait)) := [("Timer", (0, Sync))].
 
+(* [erased]: traits behind which an owner type-erases something it then shares between threads
+   on the strength of an unsafe impl that cannot name it: `GenericTimerService<M>` holds
+   `&'static dyn Clock` and is Send / Sync for `M: Send / Sync` alone, and every thread that polls
+   a timer future or calls check_expirations() reads the clock - sound only because every Clock
+   is required to be Sync by the trait's supertrait. *)
+Definition erased : list (string * trait) := [("Clock", Sync)].
+
+Definition erased_guarded (dts : list (string * (bool * bool))) : bool :=
+  forallb (fun e =>
+     match find (fun d => String.eqb (fst d) (fst e)) dts with
+     | Some d => match snd e with
+                 | Send => fst (snd d)
+                 | Sync => snd (snd d)
+                 | _ => false
+                 end
+     | None => false
+     end) erased.
+
+(* [erased_links]: a future that refers to its channel through `&dyn ...Access<T>` (borrowed) or
+   `Arc<dyn ...Access<T>>` (shared) erases the channel's type.  Its `unsafe impl Send` can only
+   name the future's own parameters (MutexType, T); it is sound only if it implies that the
+   implementor behind the reference may be reached from the other thread: implementor `Sync`
+   (for `Arc<dyn ..>` the last drop may also happen there, which would need implementor `Send`,
+   i.e. `MutexType: Send`; like the [required] table this rule does not demand more than the
+   property states - see DESIGN 4, observations).  [l_map] gives, per parameter of the implementor, the parameter
+   of the owner that it is equal to (None: the owner does not know it - the buffer type A). *)
+Record elink := mkL { l_owner : string; l_otrait : trait; l_impl : string; l_needs : list trait;
+                      l_map : list (option nat) }.
+
+Definition erased_links : list elink := [
+  mkL "channel::channel_future::ChannelSendFuture" Send "channel::mpmc::GenericChannel" [Sync] [Some 0; Some 1; None];
+  mkL "channel::channel_future::ChannelReceiveFuture" Send "channel::mpmc::GenericChannel" [Sync] [Some 0; Some 1; None];
+  mkL "channel::channel_future::ChannelReceiveFuture" Send "channel::oneshot::GenericOneshotChannel" [Sync] [Some 0; Some 1];
+  mkL "channel::channel_future::ChannelReceiveFuture" Send "channel::oneshot_broadcast::GenericOneshotBroadcastChannel" [Sync] [Some 0; Some 1];
+  mkL "channel::state_broadcast::StateReceiveFuture" Send "channel::state_broadcast::GenericStateBroadcastChannel" [Sync] [Some 0; Some 1];
+  mkL "channel::channel_future::if_alloc::shared::ChannelSendFuture" Send
+      "channel::mpmc::if_alloc::shared::GenericChannelSharedState" [Sync] [Some 0; Some 1; None];
+  mkL "channel::channel_future::if_alloc::shared::ChannelReceiveFuture" Send
+      "channel::mpmc::if_alloc::shared::GenericChannelSharedState" [Sync] [Some 0; Some 1; None];
+  mkL "channel::channel_future::if_alloc::shared::ChannelReceiveFuture" Send
+      "channel::oneshot::if_alloc::shared::GenericOneshotChannelSharedState" [Sync] [Some 0; Some 1];
+  mkL "channel::channel_future::if_alloc::shared::ChannelReceiveFuture" Send
+      "channel::oneshot_broadcast::if_alloc::shared::GenericOneshotChannelSharedState" [Sync] [Some 0; Some 1];
+  mkL "channel::state_broadcast::if_alloc::shared::StateReceiveFuture" Send
+      "channel::state_broadcast::if_alloc::shared::GenericStateBroadcastChannelSharedState" [Sync] [Some 0; Some 1]
+].
+
+(* KNOWN FINDING D5 (known_findings.json): the mpmc futures erase the buffer type A, so they are
+   Send for `MutexType: Sync, T: Send` although the channel they point to is Sync only for
+   `A: Send`.  The links with an unknown implementor parameter form that class. *)
+Definition known_gap (l : elink) : bool := existsb (fun m => match m with None => true | Some _ => false end) (l_map l).
+
 Definition producers_guarded (tis : list timpl) : bool :=
   forallb (fun g =>
      (* the trait is implemented at all, and every impl carries the bound *)
@@ -157,6 +209,24 @@ Section Check.
         forallb (fun a => implb (bounds_hold (r_bounds r) a)
                                 (holds structs impls (r_trait r) (r_name r) a)) (assignments n)
     end.
+
+  (* the owner's environment induced by an assignment to the implementor's parameters *)
+  Definition owner_env (nO : nat) (m : list (option nat)) (envI : list bits) : list bits :=
+    map (fun j => match find (fun p => match fst p with Some j' => Nat.eqb j j' | None => false end) (combine m envI) with
+                  | Some p => snd p
+                  | None => ball
+                  end) (seq 0 nO).
+
+  Definition link_bad (l : elink) : list (list bits) :=
+    match nparams (l_owner l), nparams (l_impl l) with
+    | Some nO, Some nI =>
+        filter (fun envI => holds structs impls (l_otrait l) (l_owner l) (owner_env nO (l_map l) envI) &&
+                            negb (forallb (fun tr => holds structs impls tr (l_impl l) envI) (l_needs l)))
+               (assignments nI)
+    | _, _ => [[]]
+    end.
+
+  Definition link_ok (l : elink) : bool := match link_bad l with [] => true | _ => false end.
 
   Definition future_not_unpin (sd : sdef) : bool :=
     negb (s_future sd) ||
@@ -206,6 +276,14 @@ Section Check.
 
   Definition unpinned_futures : list string :=
     flat_map (fun sd => if future_not_unpin sd then [] else [s_name sd]) structs.
+
+  (* diagnostics for the erased links: "owner impl K|U code" (K = in the known class) *)
+  Definition erased_summary : list string :=
+    flat_map (fun l => match link_bad l with
+                       | [] => []
+                       | a :: _ => [l_owner l ++ " " ++ l_impl l ++ " " ++ (if known_gap l then "K" else "U") ++ " " ++
+                                    (match a with [] => "-" | _ => code a end)]
+                       end) erased_links.
 End Check.
 
 (* lifting lemmas: from the boolean case analysis to the quantified statements, generic in the
